@@ -352,6 +352,14 @@ def check_sequence(el, ctor_kw, intents):
         sa_str, sb_str = sa.pop('string'), sb.pop('string')
         if sa != sb:
             return F('surface-state-differs', t, inp, {'step': i, 'dot': sa, 'explicit': sb})
+        # reading: e.xml_x is a child that the element shows (document-ordered view), None when it shows none -
+        # also after an assignment that was refused
+        rr = call(getattr, a, 'xml_' + py_name(it[1]))
+        shown = [c for c in (call(a.get_children, True).value or []) if c.name == it[1]]
+        if rr.ok and ((rr.value is None) != (not shown) or (shown and not any(rr.value is c for c in shown))):
+            return F('dot-read-returns-child-not-shown', t, inp,
+                     {'step': i, 'read': None if rr.value is None else rr.value.name, 'shown': len(shown),
+                      'after': r1.verdict()[0]})
     sa, sb = snapshot(a), snapshot(b)
     if sa != sb:
         return F('surface-result-differs', t, inp, {'dot': sa, 'explicit': sb})
